@@ -80,6 +80,23 @@ type Ctl struct {
 	MaxSteps int
 	// DeferAt: a decision byte >= DeferAt leaves all tickets parked (Settle(false)).
 	DeferAt int
+	// Priority mode (PCT-like): every goroutine label gets a priority from the
+	// decision stream when it is first seen and the highest-priority parked ticket
+	// is always granted; at a few generated step numbers the goroutine just chosen
+	// drops below everybody else. The driver (the harness issuing operations) draws
+	// a priority for every inter-operation window: tickets below it stay parked.
+	// This produces the schedules a random walk almost never does: one goroutine
+	// delayed across many operations of the others.
+	Prio bool
+	// Mix: non-zero decision bytes are passed through a hash before use. rapid draws
+	// bytes with a strong bias towards small values (measured: 38 % below 8, 13 % at
+	// or above 192), which makes "grant the first tickets in label order" far more
+	// likely than any other choice; hashing restores a uniform choice while a zero
+	// byte still means "first ticket", so shrinking keeps its target.
+	Mix     bool
+	prio    map[string]int
+	change  map[int]bool
+	demoted int
 	// StepLimit is set when MaxSteps was exceeded.
 	StepLimit bool
 
@@ -213,6 +230,20 @@ func Run(t *testing.T, parkable []string, schedule []byte, body func(c *Ctl)) (c
 		// the first schedule byte selects how eager the case is to overlap operations
 		c.DeferAt = []int{192, 64, 128, 224}[int(schedule[0])&3]
 		c.sched = schedule[1:]
+		c.Mix = schedule[0]&0x20 != 0
+		if (int(schedule[0])>>2)&3 == 3 {
+			c.Prio = true
+			c.prio = map[string]int{}
+			c.change = map[int]bool{}
+			for i := 0; i < 4; i++ {
+				// change points: two within the first 64 grants, two within the first 256
+				n := c.next()
+				if i < 2 {
+					n &= 63
+				}
+				c.change[1+n] = true
+			}
+		}
 	}
 	for _, p := range parkable {
 		c.parkable[p] = true
@@ -358,10 +389,58 @@ func (c *Ctl) Pending() []*Ticket {
 	return p
 }
 
+// prioOf returns the (lazily drawn) priority of a ticket's goroutine.
+func (c *Ctl) prioOf(t *Ticket) int {
+	k := t.Label
+	if k == "" {
+		k = fmt.Sprintf("g%d", t.goid)
+	}
+	pr, ok := c.prio[k]
+	if !ok {
+		pr = 1 + c.next() // 1..256; demoted goroutines go to <= 0
+		c.prio[k] = pr
+	}
+	return pr
+}
+
+// pickPrio returns the highest-priority pending ticket (first in stable order on ties).
+func (c *Ctl) pickPrio(p []*Ticket) (*Ticket, int) {
+	var best *Ticket
+	bp := 0
+	for _, t := range p {
+		if pr := c.prioOf(t); best == nil || pr > bp {
+			best, bp = t, pr
+		}
+	}
+	return best, bp
+}
+
+// grantPrio grants t and applies a change point if one is due.
+func (c *Ctl) grantPrio(t *Ticket) {
+	if c.change[c.steps+1] {
+		k := t.Label
+		if k == "" {
+			k = fmt.Sprintf("g%d", t.goid)
+		}
+		c.demoted--
+		c.prio[k] = c.demoted
+	}
+	c.Grant(t)
+}
+
 func (c *Ctl) next() int {
 	if c.si < len(c.sched) {
 		d := c.sched[c.si]
 		c.si++
+		if c.Mix && d != 0 {
+			x := uint64(d)<<32 | uint64(c.si)
+			x ^= x >> 30
+			x *= 0xbf58476d1ce4e5b9
+			x ^= x >> 27
+			x *= 0x94d049bb133111eb
+			x ^= x >> 31
+			return int(x & 0xff)
+		}
 		return int(d)
 	}
 	return 0
@@ -394,6 +473,11 @@ func (c *Ctl) Grant(t *Ticket) {
 // decision stream says "leave the rest parked and go on".
 // It returns true when the system is fully quiescent (no ticket parked).
 func (c *Ctl) Settle(full bool) bool {
+	drv := -1 << 30
+	if c.Prio && !full {
+		// the driver's priority for this window: tickets below it stay parked
+		drv = c.next()
+	}
 	for {
 		c.Wait()
 		p := c.Pending()
@@ -408,6 +492,14 @@ func (c *Ctl) Settle(full bool) bool {
 		// the next operation" (only when !full); otherwise it selects a ticket.
 		// 0 always selects the first ticket, so shrinking drives the schedule
 		// towards a sequential run.
+		if c.Prio {
+			t, pr := c.pickPrio(p)
+			if !full && pr < drv {
+				return false
+			}
+			c.grantPrio(t)
+			continue
+		}
 		d := c.next()
 		if !full && d >= c.DeferAt {
 			return false
@@ -427,6 +519,11 @@ func (c *Ctl) Step() bool {
 	if c.steps >= c.MaxSteps {
 		c.StepLimit = true
 		return false
+	}
+	if c.Prio {
+		t, _ := c.pickPrio(p)
+		c.grantPrio(t)
+		return true
 	}
 	c.Grant(p[c.next()%len(p)])
 	return true
